@@ -235,6 +235,12 @@ impl Core {
                     }
                 }
             }
+        } else if task.is_retracting() {
+            // A retracting task may have been returned to the ready queue
+            // when its prefill was disposed
+            self.task_queues
+                .get_mut(task.resource_rq_id)
+                .remove(task_id, task.priority());
         }
         task.state
     }
